@@ -92,11 +92,14 @@ type World struct {
 	// OnLoadWallet is applied to every wallet store wrapper (crash hooks, observers)
 	OnLoadWallet func(w *WalletW)
 	// OnTokens observes proofs returned to the wallet's caller (Send*, HTLC)
-	OnTokens  func(ps cashu.Proofs)
-	rotations map[string]int
-	logPos    int
-	feePos    int
-	giver     *world.User
+	OnTokens func(ps cashu.Proofs)
+	// UntrustedSwaps: ranges [from, to) of the transport log made by a receive-with-swap-to-trusted of a token whose
+	// mint the wallet did not trust at that time (outputs derived for a keyset the wallet keeps no record of)
+	UntrustedSwaps [][2]int
+	rotations      map[string]int
+	logPos         int
+	feePos         int
+	giver          *world.User
 }
 
 func URL(mintName string) string { return "http://mint-" + mintName }
@@ -420,6 +423,18 @@ func (w *World) Exec(op string) error {
 		tok := w.tokenOf(t)
 		before := ww.W.GetBalance()
 		var got uint64
+		trusted := false
+		for _, u := range ww.W.TrustedMints() {
+			if u == URL(t.Mint) {
+				trusted = true
+			}
+		}
+		logFrom := len(w.R.Log)
+		defer func() {
+			if arg(3) == "1" && !trusted {
+				w.UntrustedSwaps = append(w.UntrustedSwaps, [2]int{logFrom, len(w.R.Log)})
+			}
+		}()
 		err := w.guard(op, func() error {
 			var e error
 			if t.Kind == "htlc" {
